@@ -115,6 +115,8 @@ func ruleHookRem(w *World, r *Report) {
 			return nil, false, false
 		},
 		Edges: func(owner string, fn *ssa.Function) edgeFilter { return nilHookEdges(owner, "remHook", fn) },
+		// Load replaces the map of a state that holds nothing yet, itself (above) or through a `reset` helper
+		VoidAllIn: func(fn *ssa.Function) bool { return fn.Name() == "Load" && fn.Parent() == nil },
 	}
 	e := newCoverEngine(w, a, spec)
 	e.report(r, "HOOK-REM", func(fn *ssa.Function, n *coverNeed) string { return "" })
